@@ -7,6 +7,7 @@ import (
 
 	"go.sia.tech/core/types"
 	"verifharness/c01"
+	"verifharness/c02"
 	"verifharness/chainx"
 	"verifharness/vh"
 )
@@ -85,18 +86,34 @@ func runConcurrent(r *vh.Run, rng *vh.RNG, name string, t *chainx.Tree, sched []
 			}
 		}(p)
 	}
+	decls := c02.Declare(t, c02.NewIDs())
+	tainted := false
 	for _, batch := range sched {
-		if res := c01.Submit(nd, t.Get(batch)); res == "panic" {
+		bt, _ := t.Lookup(nd.CM.Tip().ID)
+		res := c01.Submit(nd, t.Get(batch))
+		if res == "panic" {
 			fail("submission-panic", "concurrent: AddBlocks(%v) panicked: %s", batch, c01.LastPanic)
 			break
+		}
+		at, ok := t.Lookup(nd.CM.Tip().ID)
+		if res == "reorg-failed" {
+			at = batch[len(batch)-1]
+		}
+		if ok && at != bt && t.Blocks[at].Parent != chainx.OrphanParent {
+			for _, x := range revertedBetween(t, bt, at) {
+				if d := decls[x]; d != nil && d.Unstable {
+					tainted = true
+				}
+			}
 		}
 	}
 	done.Store(true)
 	wg.Wait()
 	tid, _ := t.Lookup(nd.CM.Tip().ID)
-	var twinDigest string
+	var twinDigest, twinLoose string
 	if t.AllValid(tid) {
-		twinDigest = chainx.LedgerOf(t.Twin(tid)).Digest(true)
+		tl := chainx.LedgerOf(t.Twin(tid))
+		twinDigest, twinLoose = tl.Digest(true), tl.DigestNoLeaf()
 	}
 	for i, p := range ps {
 		for n := 0; !p.dead && p.idx != nd.CM.Tip() && n < 10000; n++ {
@@ -113,7 +130,11 @@ func runConcurrent(r *vh.Run, rng *vh.RNG, name string, t *chainx.Tree, sched []
 		}
 		if twinDigest != "" {
 			if d := p.led.Digest(true); d != twinDigest {
-				fail("shadow-ledger-differs-from-linear-twin", "concurrent poller %d: %s", i, firstDiff(d, twinDigest))
+				cls := "shadow-ledger-differs-from-linear-twin"
+				if tainted && p.led.DigestNoLeaf() == twinLoose {
+					cls = "exp-order-after-mid-list-revert"
+				}
+				fail(cls, "concurrent poller %d: %s", i, firstDiff(d, twinDigest))
 			}
 			if err := p.led.VerifyProofs(nd.CM.TipState()); err != nil {
 				fail("shadow-ledger-proof-invalid", "concurrent poller %d: %v", i, err)
